@@ -76,6 +76,24 @@ struct ReadOut {
     stop: Stop,
 }
 
+/// marker of an item whose field accessors fail (the Debug rendering of a lazy record walks every
+/// accessor; `format!` would turn an accessor error into a panic of the harness itself)
+const UNRENDERABLE: &str = "\u{1}unrenderable:";
+
+/// canonical text of a returned item, through its accessors, never panicking: an accessor error or
+/// a panic inside an accessor gives an UNRENDERABLE item.  Whether that matters is decided by the
+/// oracle: on a record noodles itself wrote it is a finding (`<fmt>-written-record-accessor-error`),
+/// on a hand-made malformed stream the content of items is not judged at all.
+fn render<T: std::fmt::Debug>(x: &T) -> String {
+    use std::fmt::Write as _;
+    let mut s = String::new();
+    match nv::guarded(AssertUnwindSafe(|| write!(s, "{x:?}"))) {
+        Outcome::Done(Ok(())) => s,
+        Outcome::Done(Err(_)) => format!("{UNRENDERABLE}accessor error"),
+        Outcome::Panicked(m) => format!("{UNRENDERABLE}accessor panic: {m}"),
+    }
+}
+
 /// run `f`, which pushes the items it reads into the vector and returns how it stopped
 fn collect(f: impl FnOnce(&mut bool, &mut Vec<String>) -> std::io::Result<()>) -> ReadOut {
     let mut hdr = false;
@@ -132,7 +150,7 @@ fn read_bam_raw(bytes: &[u8]) -> ReadOut {
             if r.read_record(&mut rec)? == 0 {
                 return Ok(());
             }
-            items.push(format!("{rec:?}"));
+            items.push(render(&rec));
         }
     })
 }
@@ -146,7 +164,7 @@ fn read_bcf_raw(bytes: &[u8]) -> ReadOut {
             if r.read_record(&mut rec)? == 0 {
                 return Ok(());
             }
-            items.push(format!("{rec:?}"));
+            items.push(render(&rec));
         }
     })
 }
@@ -157,7 +175,7 @@ fn read_bam(bytes: &[u8]) -> ReadOut {
         let h = r.read_header()?;
         *hdr = true;
         for rec in r.record_bufs(&h) {
-            items.push(format!("{:?}", rec?));
+            items.push(render(&rec?));
         }
         Ok(())
     })
@@ -172,7 +190,7 @@ fn read_bam_lazy(bytes: &[u8]) -> ReadOut {
         for rec in r.records() {
             let rec = rec?;
             let buf = sam::alignment::RecordBuf::try_from_alignment_record(&h, &rec)?;
-            items.push(format!("{buf:?}"));
+            items.push(render(&buf));
         }
         Ok(())
     })
@@ -184,7 +202,7 @@ fn read_bcf(bytes: &[u8]) -> ReadOut {
         let h = r.read_header()?;
         *hdr = true;
         for rec in r.record_bufs(&h) {
-            items.push(format!("{:?}", rec?));
+            items.push(render(&rec?));
         }
         Ok(())
     })
@@ -196,7 +214,7 @@ fn read_cram(bytes: &[u8]) -> ReadOut {
         let h = r.read_header()?;
         *hdr = true;
         for rec in r.records(&h) {
-            items.push(format!("{:?}", rec?));
+            items.push(render(&rec?));
         }
         Ok(())
     })
@@ -208,7 +226,7 @@ fn read_vcfgz(bytes: &[u8]) -> ReadOut {
         let h = r.read_header()?;
         *hdr = true;
         for rec in r.record_bufs(&h) {
-            items.push(format!("{:?}", rec?));
+            items.push(render(&rec?));
         }
         Ok(())
     })
@@ -220,7 +238,7 @@ fn read_samgz(bytes: &[u8]) -> ReadOut {
         let h = r.read_header()?;
         *hdr = true;
         for rec in r.record_bufs(&h) {
-            items.push(format!("{:?}", rec?));
+            items.push(render(&rec?));
         }
         Ok(())
     })
@@ -365,6 +383,13 @@ fn check_prefix(spec: &RecordSpec, k: usize, out: &ReadOut) -> Result<(), Fail> 
     if let Stop::Panic(m) = &out.stop {
         return Err((format!("panic-{fmt}"), format!("cut {k}: {m}")));
     }
+    // (check_prefix is only applied to files noodles' own writers produced)
+    if let Some(i) = spec.orig.iter().position(|it| it.starts_with(UNRENDERABLE)) {
+        return Err((format!("{fmt}-written-record-accessor-error"), format!("intact file: item {i}: {}", &spec.orig[i][UNRENDERABLE.len()..])));
+    }
+    if let Some(i) = out.items.iter().position(|it| it.starts_with(UNRENDERABLE)) {
+        return Err((format!("{fmt}-written-record-accessor-error"), format!("cut {k}: item {i}: {}", &out.items[i][UNRENDERABLE.len()..])));
+    }
     if out.items.len() > spec.orig.len() {
         let tag = if spec.text && out.items.len() == spec.orig.len() + 1 {
             format!("text-truncated-final-line-accepted-{fmt}")
@@ -460,7 +485,10 @@ fn run_raw(kind: &str, c: &Case) -> Obs {
             bounds.push(at);
         }
     }
-    let wellformed = intact.stop == Stop::Eof && intact.items.len() + 1 == bounds.len() && *bounds.last().unwrap() == stream.len();
+    // hand-made (deliberately malformed) streams carry the literal `malformed` as third argument:
+    // for them only the model comparison and "no panic / no hang" apply, item contents are n/a
+    let handmade = c.args.get(2).map(|a| a == "malformed").unwrap_or(false);
+    let wellformed = !handmade && intact.stop == Stop::Eof && intact.items.len() + 1 == bounds.len() && *bounds.last().unwrap() == stream.len();
     let res = sweep(&stream, &cuts, reader);
     let mut toks = Vec::new();
     let mut fails = Vec::new();
@@ -553,7 +581,7 @@ fn read_bam_raw_eager(bytes: &[u8]) -> ReadOut {
         let h = r.read_header()?;
         *hdr = true;
         for rec in r.record_bufs(&h) {
-            items.push(format!("{:?}", rec?));
+            items.push(render(&rec?));
         }
         Ok(())
     })
@@ -565,7 +593,7 @@ fn read_bcf_raw_eager(bytes: &[u8]) -> ReadOut {
         let h = r.read_header()?;
         *hdr = true;
         for rec in r.record_bufs(&h) {
-            items.push(format!("{:?}", rec?));
+            items.push(render(&rec?));
         }
         Ok(())
     })
@@ -579,7 +607,7 @@ fn read_bcf_lazy(bytes: &[u8]) -> ReadOut {
         for rec in r.records() {
             let rec = rec?;
             let buf = vcf::variant::RecordBuf::try_from_variant_record(&h, &rec)?;
-            items.push(format!("{buf:?}"));
+            items.push(render(&buf));
         }
         Ok(())
     })
@@ -1089,9 +1117,9 @@ fn run_file(c: &Case) -> Obs {
             // item lists: gzi entries, fai records, crai records
             let rd = move |p: &[u8]| -> Result<Vec<String>, Stop> {
                 let r = match f.as_str() {
-                    "gzi" => nv::guarded(|| bgzf::gzi::io::Reader::new(p).read_index().map(|i| i.as_ref().iter().map(|e| format!("{e:?}")).collect::<Vec<_>>())),
-                    "fai" => nv::guarded(|| fasta::fai::io::Reader::new(p).read_index().map(|i| i.as_ref().iter().map(|e| format!("{e:?}")).collect::<Vec<_>>())),
-                    _ => nv::guarded(|| cram::crai::io::Reader::new(p).read_index().map(|i| i.iter().map(|e| format!("{e:?}")).collect::<Vec<_>>())),
+                    "gzi" => nv::guarded(|| bgzf::gzi::io::Reader::new(p).read_index().map(|i| i.as_ref().iter().map(|e| render(e)).collect::<Vec<_>>())),
+                    "fai" => nv::guarded(|| fasta::fai::io::Reader::new(p).read_index().map(|i| i.as_ref().iter().map(|e| render(e)).collect::<Vec<_>>())),
+                    _ => nv::guarded(|| cram::crai::io::Reader::new(p).read_index().map(|i| i.iter().map(|e| render(e)).collect::<Vec<_>>())),
                 };
                 match r {
                     Outcome::Done(Ok(x)) => Ok(x),
@@ -1204,7 +1232,7 @@ fn generate(rng: &mut Rng, tier: &str, w: &mut CaseWriter) {
             1 => s[at..at + 4].copy_from_slice(&(rng.range(1, 31) as u32).to_le_bytes()),
             _ => s[at + 4 + 16] = s[at + 4 + 16].wrapping_add(rng.range(1, 200) as u8),
         }
-        w.push("bamraw", vec![hex(&s), "all".into()]);
+        w.push("bamraw", vec![hex(&s), "all".into(), "malformed".into()]);
     }
 
     // --- modelled: BGZF files, 0..5 blocks, with and without the EOF marker, every cut
